@@ -18,6 +18,10 @@ let parse_op (s : string) : op =
   | ["sd"; h] -> SetDMX (bytes_of_hex h)
   | ["co"; c; h; p; ts] -> ClientOther (n c, bytes_of_hex h, n p, n ts)
   | ["ack"; c; k] -> AckClient (n c, n k)
+  | ["ms"; i; v] -> MgrStatic (n i, n v)
+  | ["mi"; i] -> MgrInherit (n i)
+  | ["os"; i; v] -> MgrOutStatic (n i, n v)
+  | ["oi"; i] -> MgrOutInherit (n i)
   | ["ao"; i] -> AddOutput (n i) | ["ro"; i] -> RemoveOutput (n i)
   | ["ak"; c] -> AddSink (n c) | ["rk"; c] -> RemoveSink (n c)
   | ["pp"; i; p] -> SetPortPrio (n i, n p)
